@@ -334,8 +334,21 @@ def make_machine(ctx, tmpdir):
         def update_yourself(self, attrs):
             self.step({"op": "update_yourself", "attrs": attrs})
 
-        @rule(attrs=pairs(st.one_of(ident, st.sampled_from(["a", "b", "a_b", "x1"]))))
-        def update_other(self, attrs):
+        @rule(attrs=pairs(st.one_of(ident, st.sampled_from(["a", "b", "a_b", "x1"]))), twin=st.booleans())
+        def update_other(self, attrs, twin):
+            if twin:
+                # the receiver already holds values that compare EQUAL to the parameters but are not the same
+                # (3 vs 3.0, 0.0 vs -0.0, True vs 1): update_other must still hand over the parameter's own value
+                attrs = [list(t) for t in attrs]
+                for k, v in list(self.sim.model.items())[:3]:
+                    if isinstance(v, bool) or not isinstance(k, str) or not k.isidentifier():
+                        continue
+                    if type(v) is int and abs(v) < 2 ** 53:
+                        attrs.append([k, float(v)])
+                    elif type(v) is float and v == v and v.is_integer() and abs(v) < 2 ** 53:
+                        attrs.append([k, int(v) if v != 0 else (-0.0 if math.copysign(1, v) > 0 else 0.0)])
+                seen = set()
+                attrs = [t for t in attrs if not (t[0] in seen or seen.add(t[0]))]
             self.step({"op": "update_other", "attrs": attrs})
 
         @rule()
